@@ -593,6 +593,26 @@ class Rows:
         return ("Rows", self.width, V.sig_of(self.src))
 
 
+class RowsShape:
+    """shape of np.array(list of k-vectors of symbolic length n): (n, k) if n > 0 else (0,)"""
+
+    def __init__(self, rows):
+        self.rows = rows
+
+    def leaves(self):
+        return []
+
+    def rebuild(self, leaves):
+        return self
+
+    def sig(self):
+        return ("RowsShape",)
+
+
+def rows_len(interp, st, r, node=None):
+    return _M().sym_len(interp, st, r.src, node)
+
+
 def glist_to_rows(interp, st, gl, node):
     if not gl.items:
         return Arr((0,), [], "float")
@@ -693,7 +713,7 @@ def _dtype_kind(dtype, default="float"):
     if isinstance(dtype, I.ModuleRef):
         name = dtype.name.split(".")[-1]
     elif isinstance(dtype, I.Native):
-        name = dtype.name
+        name = dtype.name.split(".")[-1]
     elif isinstance(dtype, str):
         name = dtype
     elif isinstance(dtype, I.Opaque):
